@@ -100,7 +100,7 @@ impl Cors {
     }
     /// The path the file system resolves `path` to:
     /// percent-decoded and without repeated `/`.
-    fn resolved_path(path: &str) -> String {
+    pub(crate) fn resolved_path(path: &str) -> String {
         let decoded = utils::percent_decode(path);
         let mut resolved = String::with_capacity(decoded.len());
         for c in decoded.chars() {
